@@ -244,10 +244,10 @@ package lite
 //@   at-call ClearVirtualHost as clean: assert route.ModifyVirtualHost && streq(arg0, handshake.ServerAddress)
 //@   at-call HostStr as bh: assert streq(arg0, backendAddr)
 //@   at-call EqualFold as samehost: assert called(clean) && called(bh) && streq(arg0, res(clean)) && streq(arg1, res(bh))
-//@   at-call ReplaceAll as rewrite: assert [virtual-host-rewritten-only-if-enabled-and-different] route.ModifyVirtualHost && called(samehost) && !res(samehost) && streq(arg1, res(clean)) && streq(arg2, res(bh))
+//@   at-call ReplaceAll as rewrite: assert [virtual-host-rewritten-only-if-enabled-and-different] route.ModifyVirtualHost && called(samehost) && !res(samehost) && streq(arg0, handshake.ServerAddress) && streq(arg1, res(clean)) && streq(arg2, res(bh))
 //@   at-call GetTCPShieldRealIP as tso
-//@   at-call IsTCPShieldRealIP as tsm: assert called(tso) && res(tso)
-//@   at-call TCPShieldRealIP as shield: assert [tcpshield-only-if-enabled-and-marked] called(tso) && res(tso) && called(tsm) && res(tsm) && arg1 == srcAddr
+//@   at-call IsTCPShieldRealIP as tsm: assert called(tso) && res(tso) && streq(arg0, handshake.ServerAddress)
+//@   at-call TCPShieldRealIP as shield: assert [tcpshield-only-if-enabled-and-marked] called(tso) && res(tso) && called(tsm) && res(tsm) && arg1 == srcAddr && streq(arg0, handshake.ServerAddress)
 //@   at-call update as upd: assert [re-encoded-only-after-a-rewrite] (called(rewrite) || called(shield) || forceUpdatePacketContext) && arg0 == handshakeCtx && arg1 == handshake
 //@   at-call writePacket as wp: assert [handshake-after-the-header] arg1 == handshakeCtx && (called(ph) ==> called(hw) && res(hw, 1) == nil)
 //@   ensures [header-iff-enabled] called(wp) ==> (called(ph) == old(route.ProxyProtocol))
